@@ -354,6 +354,19 @@ def search_history_fn(kind, p, variant):
                 m2 = run(ctx, 37.5)       # another nominal borehole height given to the borehole setter
                 m2.find_design()
                 r2 = result(ctx, m2)
+            elif variant == 'same_manager_reconfigured':
+                # one manager: an unrelated design first, then set_design() for the design under test (a new design object, as the real
+                # setter creates), find_design() again - against the fresh manager m1
+                m2 = run(ctx, 100.0)
+                wanted = m2._design
+                m2._design = NS(find_design=lambda: __import__('ghedesigner.search_routines', fromlist=['x']).Bisection1D(
+                    *SP.domain('ns', dict(n=2)), v_flow=0.3, sim_params=SC.sim_params(ctx, None, True), hourly_extraction_ground_loads=[0.0] * 8760,
+                    method=__import__('ghedesigner.enums', fromlist=['x']).TimestepType.HYBRID,
+                    flow_type=__import__('ghedesigner.enums', fromlist=['x']).FlowConfigType.BOREHOLE, **SC.light_parts(h0=55.0)))
+                m2.find_design()
+                m2._design = wanted
+                m2.find_design()
+                r2 = result(ctx, m2)
             elif variant == 'after_unrelated':
                 other = run(ctx, 77.0)
                 other._design = NS(find_design=lambda: __import__('ghedesigner.search_routines', fromlist=['x']).Bisection1D(
@@ -615,7 +628,7 @@ def units(tier, seed):
                        '%d stored heights; earlier query at ha and query at hb, both all reals in [10,500] (in and out of range)' % n,
                        stubs=['interp1d -> contract keyed by (kind, nodes): uninterpreted value, ValueError out of range unless extrapolate']))
     for kind, p in [('ns', dict(n=3)), ('rect', SP.LOTS_RECT[0]), ('2d', SP.LOTS_2D[0]), ('zd_zoned', SP.LOTS_ZD[0])]:
-        for variant in ('repeat', 'nominal_height', 'after_unrelated'):
+        for variant in ('repeat', 'nominal_height', 'after_unrelated', 'same_manager_reconfigured'):
             if tier == 'quick' and ((kind in ('2d', 'zd_zoned') and variant != 'nominal_height') or (kind == 'rect' and variant == 'after_unrelated')):
                 continue
             us.append(Unit('search_%s_%s' % (kind, variant), search_history_fn(kind, p, variant), None, SP.setup, F3,
